@@ -23,7 +23,7 @@ from standins.oracle import Poly      # noqa: E402
 def make_algebra(cfg):
     from kingdon import Algebra
     kw = {}
-    for k in ('p', 'q', 'r', 'start_index', 'basis', 'cse', 'graded'):
+    for k in ('p', 'q', 'r', 'start_index', 'basis', 'cse', 'graded', 'pretty_blade'):
         if k in cfg and cfg[k] is not None:
             kw[k] = cfg[k]
     if cfg.get('signature') is not None:
@@ -46,7 +46,7 @@ def make_algebra(cfg):
         import sympy
         kw['codegen_symbolcls'] = sympy.Symbol
     if cfg.get('name'):
-        return Algebra.fromname(cfg['name'], **{k: v for k, v in kw.items() if k in ('cse', 'graded', 'wrapper', 'codegen_symbolcls')})
+        return Algebra.fromname(cfg['name'], **{k: v for k, v in kw.items() if k in ('cse', 'graded', 'wrapper', 'codegen_symbolcls', 'pretty_blade')})
     return Algebra(**kw)
 
 
